@@ -83,6 +83,20 @@ def make_case(tier, seed, index):
         for pop, v in popvals.items():
             if rng.random() < 0.3:
                 v["sigma"] = float(rng.choice([0.0, 0.1, 2.5]))
+    if rng.random() < 0.2:
+        # year columns that are only 0.01 years apart (weekly or daily data): every value stays in its own column
+        y0_ = float(spec["years"][min(1, len(spec["years"]) - 1)])
+        extra_ = [y0_ + 0.01, y0_ + 0.02]
+        spec["years"] = sorted(set(float(y) for y in spec["years"]) | set(extra_))
+        n_ = 0
+        for name_, popvals_ in spec["values"].items():
+            if name_ in timed:
+                continue
+            for pop_, v_ in popvals_.items():
+                if "t" in v_ and n_ < 6 and not any(abs(float(t_) - e_) < 1e-9 for t_ in v_["t"] for e_ in extra_):
+                    v_["t"] = list(v_["t"]) + extra_
+                    v_["v"] = list(v_["v"]) + [float(v_["v"][0]) * 1.25, float(v_["v"][0]) * 0.75]
+                    n_ += 1
     ps = gen.gen_progspec(rng, spec)
     ops = []
     if kind.endswith("_ops"):
